@@ -32,6 +32,7 @@ type HarnessCfg struct {
 	MaxSeconds map[string]int           `json:"max_seconds"`
 	Stubs      map[string]string        `json:"stubs"`
 	YieldMode  string                   `json:"yield_mode"`
+	ClockMode  string                   `json:"clock_mode"`
 	ReplayOptional bool                 `json:"replay_optional"` // model-level counterexamples (crash durability) count even if a native run cannot exhibit them
 }
 
@@ -54,6 +55,7 @@ type CheckCfg struct {
 	SkipInit     []string          `json:"skip_init"`
 	AllocEnumMax int               `json:"alloc_enum_max"`
 	YieldMode    string            `json:"yield_mode"`
+	ClockMode    string            `json:"clock_mode"`
 }
 
 type KnownFinding struct {
@@ -225,6 +227,7 @@ func main() {
 			}
 		}
 		P.ExplicitYield = cfg.YieldMode == "explicit" || hc.YieldMode == "explicit"
+		P.ConcreteClock = cfg.ClockMode == "concrete" || hc.ClockMode == "concrete"
 		maxSec := 600
 		if *tier == "thorough" {
 			maxSec = 3600
